@@ -103,7 +103,7 @@ func (e *Engine) verifyFunction(fc *FuncContract) *FnResult {
 	c.collectWitness(s, fn, args)
 	env := c.fnEnv(s, fn, fr, args)
 	for _, rq := range fc.Requires {
-		g := env.evalBool(rq.Expr)
+		g := env.evalRequires(rq.Expr, fn)
 		c.reportEvalErrors(env, fc, rq.Src)
 		s.assume(g)
 	}
